@@ -253,6 +253,16 @@ func c16Dense(c *Ctx) {
 	c.Step("FromDense(len=%d words, doCopy=%v) card=%d", n, doCopy, m.Card())
 	var reg *GuardRegion
 	src := words
+	if r.Chance(0.5) {
+		// the caller's slice is a prefix of a larger, dirty buffer (capacity beyond len is not content)
+		big := make([]uint64, n+1+r.Intn(2100))
+		copy(big, words)
+		for i := n; i < len(big); i++ {
+			big[i] = maxU64 ^ uint64(i)
+		}
+		src = big[:n]
+		c.Count("fromdense_source_with_dirty_capacity_tail")
+	}
 	if !doCopy {
 		raw := make([]byte, 8*n)
 		for i, w := range words {
